@@ -130,7 +130,7 @@ def check_pose(P, S, obs, distmax, witness, final=True):
     # direction tolerance: GJK/EPA bracket the *distance* within ccd_tolerance; the witness direction of a curved pair is only
     # accurate to first order (the separation along a direction off by an angle a drops by ~size*a^2), so the direction is
     # required to realise the distance within 100*tol + 1e-3*size for curved pairs and within tol for polytope pairs
-    polytopes = A.kind in (cx.BOX, cx.MESH) and B.kind in (cx.BOX, cx.MESH)
+    polytopes = A.kind in (cx.BOX, cx.MESH) and B.kind in (cx.BOX, cx.MESH) and S.margin + S.gap == 0     # a margin rounds the polytopes
     tolN = tol if polytopes else 100 * tol + 1e-3 * size
     mech = "ccd-coincident-centres:" if base.ccd_coincident_centres(A, B, max(ccd_tol, 1e-15)) else ""
     if mech:
@@ -168,6 +168,12 @@ def check_pose(P, S, obs, distmax, witness, final=True):
         lo, hi = ref["lower"], (ref["upper"] if ref["exact"] else 0.0)      # -depth_ref <= d (always); d <= -depth_ref if exact
         regime = "pen-exact" if ref["exact"] else "pen-bound"
     P.note_max("ref_bracket_width_rel", (hi - lo) / size if ref["separated"] or ref["exact"] else 0.0)
+    # mechanism class of findings/C15-epa-from-touching-simplex.md: the true distance of the (margin-inflated, for contacts) shapes is
+    # within ccd_tolerance of zero, where mjc_ccd "assumes touching" and starts EPA from a boundary simplex
+    band = 2 * ccd_tol
+    if not mech and ((lo >= -band and hi <= band) or (mg > 0 and lo >= mg - band and (hi if regime != "pen-bound" else lo) <= mg + band)):
+        mech = "ccd-touching-within-tolerance:"
+        P.count("poses_ccd-touching-within-tolerance")
 
     # ---- mj_geomDistance: swap symmetry
     e = abs(gdA - gdB)
